@@ -68,13 +68,13 @@ class Origin:
     """Threaded TCP origin on 127.0.0.1:<assigned>.  behaviour(conn_index, received_so_far) -> bytes to send | None | 'close'.
     Default behaviour: HTTP - answer every complete request (head + Content-Length body) with a labelled response."""
 
-    def __init__(self, label=b'A', behaviour=None, wrap=None):
+    def __init__(self, label=b'A', behaviour=None, wrap=None, host='127.0.0.1'):
         self.label = label
         self.behaviour = behaviour
         self.wrap = wrap
-        self.srv = socket.socket(socket.AF_INET, socket.SOCK_STREAM)
+        self.srv = socket.socket(socket.AF_INET6 if ':' in host else socket.AF_INET, socket.SOCK_STREAM)
         self.srv.setsockopt(socket.SOL_SOCKET, socket.SO_REUSEADDR, 1)
-        self.srv.bind(('127.0.0.1', 0))
+        self.srv.bind((host, 0))
         self.srv.listen(64)
         self.port = self.srv.getsockname()[1]
         self.conns = []         # [{'got': bytearray, 'eof': bool}]
